@@ -134,8 +134,8 @@ pub fn check(cfg: &Config, ops: &[Op]) -> (Vec<(String, String)>, u64, bool) {
 
 pub fn run(tier: Tier) -> i32 {
     let ctx = Ctx::new("C17", tier, "model_checking");
-    ctx.set_rule("case = (handshake name incl. every psk set, DH in {25519, P256}, role, remote key supplied {as required, true key although transmitted, unrelated key where none is pre-shared}, transport mode); get_remote_static compared with the model at every point: before the first message, after every call on both sides, after conversion to either transport mode and after transport traffic, also with failing reads/writes interposed around every read; non-trivial = a key was reported at some point");
-    let mut cases: Vec<(Proto, Extra, Mode, bool)> = vec![];
+    ctx.set_rule("case = (handshake name incl. every psk set, DH in {25519, P256}, role, remote key supplied {as required, true key although transmitted, unrelated key where none is pre-shared}, ephemerals {fixed at build time, drawn from the scripted RNG when first written - so a party that never sends `e` holds none}, transport mode); get_remote_static compared with the model at every point: before the first message, after every call on both sides, after conversion to either transport mode and after transport traffic, also with failing reads/writes interposed around every read; non-trivial = a key was reported at some point");
+    let mut cases: Vec<(Proto, Extra, Mode, bool, bool)> = vec![];
     // all four suites cost ~5 s: both tiers run them
     let suites: Vec<(DhAlg, CipherAlg, HashAlg)> = if false && ctx.quick() {
         vec![(DhAlg::X25519, CipherAlg::ChaChaPoly, HashAlg::Blake2s), (DhAlg::P256, CipherAlg::AesGcm, HashAlg::Sha256)]
@@ -146,18 +146,25 @@ pub fn run(tier: Tier) -> i32 {
         for p in patterns::all_protos_for_suite(d, c, h) {
             for x in [Extra::None, Extra::TrueKey, Extra::OtherKey] {
                 for m in [Mode::TS, Mode::ST] {
-                    cases.push((p.clone(), x, m, false));
+                    cases.push((p.clone(), x, m, false, false));
+                    // the same without fixed_ephemeral_key_for_testing_only: ephemerals are drawn from the scripted RNG
+                    // by the write that needs them, so a party that never sends `e` (one-way responder) holds none
+                    cases.push((p.clone(), x, m, false, true));
                 }
-                cases.push((p.clone(), x, Mode::TT, true));
+                cases.push((p.clone(), x, Mode::TT, true, false));
+                cases.push((p.clone(), x, Mode::TT, true, true));
                 if !p.psks.is_empty() && x == Extra::None {
                     // every psk withheld from one side until the message that needs it has failed once
-                    cases.push((p.clone(), Extra::LatePsk, Mode::TS, false));
+                    cases.push((p.clone(), Extra::LatePsk, Mode::TS, false, false));
                 }
             }
         }
     }
-    cases.par_iter().for_each(|(p, x, m, f)| {
+    cases.par_iter().for_each(|(p, x, m, f, scripted)| {
         let mut cfg = cfg_for(p, *x);
+        if *scripted {
+            cfg.eph = [crate::exec::Eph::Scripted(0x17_0001), crate::exec::Eph::Scripted(0x17_0002)];
+        }
         let mut ops = ops_for(p, *m, *f);
         if *x == Extra::LatePsk {
             for s in SIDES {
@@ -200,7 +207,7 @@ pub fn run(tier: Tier) -> i32 {
         }
     });
     ctx.states.store(cases.len() as u64, std::sync::atomic::Ordering::Relaxed);
-    let (p0, x0, m0, f0) = &cases[101];
+    let (p0, x0, m0, f0, _) = &cases[101];
     ctx.sample(json!({"name": p0.name, "extra": x0, "mode": m0, "ops": ops_for(p0, *m0, *f0)}));
     ctx.assume("when a key was supplied although the pattern transmits it, the getter shows the supplied key until the transmitted one has been read; only the true key afterwards");
     ctx.assume("the peer's true public key is computed by ring (X25519 / ECDH_P256) from its private key");
